@@ -114,7 +114,21 @@ def r4_explicit_containers(chk: Check) -> None:
     star = [k.value for k in c.keywords if k.arg is None]
     comp0 = next((n for n in walk_body(g.node) if isinstance(n, ast.ListComp) and any(c is x for x in ast.walk(n))), None)
     cvar = comp0.generators[0].target.id if comp0 is not None and isinstance(comp0.generators[0].target, ast.Name) else None
-    spread = star and isinstance(star[0], ast.Dict) and any(k is None and is_var(v, cvar) for k, v in zip(star[0].keys, star[0].values))
+    def _spreads_combo(v: ast.expr) -> bool:
+        if is_var(v, cvar):
+            return True
+        # through a local helper that takes the combination and returns a mapping built from `**<its parameter>`
+        if isinstance(v, ast.Call) and isinstance(v.func, ast.Name) and any(is_var(a_, cvar) for a_ in v.args):
+            for h_ in g.module.functions.values():
+                if h_.parent is g and h_.name == v.func.id and params_of(h_.node):
+                    p0 = params_of(h_.node)[0]
+                    dicts = [d_ for d_ in walk_body(h_.node) if isinstance(d_, ast.Dict) and any(k_ is None and is_var(x_, p0) for k_, x_ in zip(d_.keys, d_.values))]
+                    rets = simple_return_expr(h_)
+                    if dicts and rets and all(isinstance(r_, ast.Name) or r_ in dicts for r_ in rets):
+                        return True
+        return False
+
+    spread = star and isinstance(star[0], ast.Dict) and any(k is None and _spreads_combo(v) for k, v in zip(star[0].keys, star[0].values))
     chk.decide(True if spread else None, "C17.R4", g, "the combination is spread into explicit containers", "combination is not passed as explicit containers", g.loc(c))
     phase = star and isinstance(star[0], ast.Dict) and any(k is not None and const_str(k) == "phase" and dotted(v) == "TestPhase.EXPLICIT" for k, v in zip(star[0].keys, star[0].values))
     chk.decide(True if phase else None, "C17.R4", g, "phase = TestPhase.EXPLICIT", "examples are not marked as explicit-phase cases", g.loc(c))
@@ -273,5 +287,45 @@ def r6_presence_by_membership(chk: Check) -> None:
         chk.undecided("C17.R6", "<discovery>", f"sites={n}", "fewer example-presence tests than confirmed by hand (3)")
 
 
+def r7_overrides_merge_per_parameter(chk: Check) -> None:
+    chk.rule("C17.R7", "KEYED-MERGE(example containers x explicit containers): a combination of examples maps a container (`headers`, `query`, ...) to {parameter: example}; the caller's explicit kwargs (`-H`, `--set-*`, overrides) use the same container keys. Where both are spread into one mapping, they are merged PER PARAMETER - a plain `{**examples, **kwargs}` replaces the whole example container, so `-H 'Authorization: ...'` alone makes every other header example disappear (regenerated as random data), with nothing reported", floor=1)
+    P = chk.project
+    fn = P.func("specs/openapi/examples.py:get_strategies_from_examples")
+    a = fn.node.args
+    kw = a.kwarg.arg if a.kwarg else None
+    if kw is None:
+        chk.undecided("C17.R7", fn, "explicit containers of the caller", "no **kwargs parameter", fn.loc())
+        return
+    combos = set()
+    for x in walk_body(fn.node, into_nested=True):
+        gens = x.generators if isinstance(x, (ast.ListComp, ast.GeneratorExp)) else ([x] if isinstance(x, ast.For) else [])
+        for g_ in gens:
+            it = g_.iter
+            if isinstance(it, ast.Call) and last_attr(it) == "produce_combinations" and isinstance(g_.target, ast.Name):
+                combos.add(g_.target.id)
+    spreads = []
+    for d in (x for x in walk_body(fn.node, into_nested=True) if isinstance(x, ast.Dict)):
+        sp = [v for k, v in zip(d.keys, d.values) if k is None]
+        names = {v.id for v in sp if isinstance(v, ast.Name)}
+        if kw in names and names & combos:
+            spreads.append(d)
+    if not spreads:
+        chk.ok("C17.R7", fn, "no container-level spread of examples and explicit kwargs", "", fn.loc())
+        return
+    for d in spreads:
+        # a per-container merge somewhere in the function: `{**<combo>[c] ..., **<kwargs>[c] ...}` / `.get(c)` on both
+        nested = any(isinstance(x, ast.Dict) and sum(1 for k in x.keys if k is None) >= 2 and not ({v.id for v in x.values if isinstance(v, ast.Name)} & ({kw} | combos)) and x is not d for x in walk_body(fn.node, into_nested=True))
+        per_container = nested and any(isinstance(c, ast.Call) and last_attr(c) == "get" and isinstance(c.func, ast.Attribute) and isinstance(c.func.value, ast.Name) and c.func.value.id == kw for c in walk_body(fn.node, into_nested=True))
+        construct = "examples and explicit containers are merged per parameter"
+        # the spread is fine if a per-container merge overwrites the affected keys afterwards in the same helper
+        encl = next((f_ for f_ in fn.module.functions.values() if f_.parent is fn and is_within(d, f_.node)), None)
+        if per_container and encl is not None:
+            chk.ok("C17.R7", fn, construct, f"per-container merge in {encl.name}", fn.loc(d))
+        else:
+            chk.violation("C17.R7", fn, construct,
+                          f"`{unparse(d, 60)}` spreads the example combination and `{kw}` into one mapping: for a container present in both, the caller's dict REPLACES the dict of examples - the documented examples of all other parameters in that container are never sent",
+                          fn.loc(d))
+
+
 def rules(tier: str) -> list:  # type: ignore[type-arg]
-    return [r1_marks, r2_invalid_headers, r3_sibling_sources, r4_explicit_containers, r5_round_robin, r6_presence_by_membership]
+    return [r1_marks, r2_invalid_headers, r3_sibling_sources, r4_explicit_containers, r5_round_robin, r6_presence_by_membership, r7_overrides_merge_per_parameter]
